@@ -8,7 +8,10 @@ import hashlib
 import json
 import multiprocessing
 import os
+import pickle
 import re
+import select
+import signal
 import sys
 import time
 import traceback
@@ -68,9 +71,70 @@ def _engine_for(prop):
     return registry.engine(prop)
 
 
+def _in_child(fn, args, timeout):
+    """Runs fn(*args) in a freshly forked child and returns ("ok", value) or ("err", text).
+
+    Engine code never runs in the process that forks, so every child starts from the same pristine interpreter state:
+    state that the code under test keeps in module or class attributes cannot travel from one group of runs to the
+    next (and what does travel inside a group is recorded as that group's history)."""
+    r, w = os.pipe()
+    pid = os.fork()
+    if pid == 0:
+        try:
+            os.close(r)
+            # no faulthandler watchdog here: its state does not survive a fork (re-arming it in a grandchild would wait
+            # for a thread that does not exist there); the parent enforces the time limit
+            try:
+                out = ("ok", fn(*args))
+            except BaseException:       # noqa
+                out = ("err", traceback.format_exc()[-3000:])
+            data = pickle.dumps(out)
+            with os.fdopen(w, "wb") as f:
+                f.write(data)
+        finally:
+            os._exit(0)
+    os.close(w)
+    chunks = []
+    deadline = _clock() + timeout + 15
+    timed_out = False
+    while True:
+        left = deadline - _clock()
+        if left <= 0:
+            timed_out = True
+            break
+        ready, _, _ = select.select([r], [], [], min(left, 5.0))
+        if not ready:
+            continue
+        b = os.read(r, 1 << 20)
+        if not b:
+            break
+        chunks.append(b)
+    os.close(r)
+    if timed_out:
+        try:
+            os.kill(pid, signal.SIGKILL)
+        except OSError:
+            pass
+    os.waitpid(pid, 0)
+    if timed_out:
+        return ("err", "child time-out")
+    try:
+        return pickle.loads(b"".join(chunks))
+    except Exception:
+        return ("err", "child died without a result")
+
+
 def _worker_batch(args):
+    st, out = _in_child(_worker_batch_impl, (args,), args[4] + 30)
+    if st != "ok":
+        raise RuntimeError("batch child failed: " + str(out))
+    return out
+
+
+def _worker_batch_impl(args):
     prop, tier, base_seed, indices, watchdog = args
     faulthandler.dump_traceback_later(watchdog, exit=True)
+    history = []          # seeds of the runs this process has executed so far
     try:
         eng = _engine_for(prop)
         agg = dict(runs=0, stats=collections.Counter(), faults=collections.Counter(),
@@ -79,6 +143,8 @@ def _worker_batch(args):
         for idx in indices:
             seed = run_seed(base_seed, prop, idx)
             tape = Tape(seed=seed)
+            prefix = list(history)
+            history.append(seed)
             try:
                 res = eng.run(tape, prop, tier)
             except (Exception, asyncio.CancelledError):
@@ -95,7 +161,7 @@ def _worker_batch(args):
                 agg["sigs"].add(res.sig)
             v = res.first(prop)
             if v is not None:
-                agg["viols"].append((idx, seed, v[1], v[2], v[3], list(tape.used), res.digest))
+                agg["viols"].append((idx, seed, v[1], v[2], v[3], list(tape.used), res.digest, prefix))
             for o in res.violations:
                 if o[0] != prop:
                     agg["other"][f"{o[0]}:{o[1]}"] += 1
@@ -111,6 +177,68 @@ def replay_tape(prop, tier, data):
     tape = Tape(data=data)
     res = eng.run(tape, prop, tier)
     return res, list(tape.used)
+
+
+class _Fin:
+    def __init__(self, d):
+        self.digest = d["digest"]
+        self.sample = d["sample"]
+
+
+def _repro(prop, tier, data, history, scenario_json=None):
+    """(in a fresh child) the runs of the history first, then the tape - or the explicit minimised scenario"""
+    eng = _engine_for(prop)
+    for sd in history:
+        try:
+            eng.run(Tape(seed=sd), prop, tier)
+        except (Exception, asyncio.CancelledError):
+            pass
+    if scenario_json is not None:
+        res, used = eng.run_scenario(scenario_json, prop, tier), list(data)
+    else:
+        res, used = replay_tape(prop, tier, data)
+    return dict(fv=res.first(prop), digest=res.digest, used=used, sample=res.sample, scenario=res.scenario)
+
+
+def _shrink_job(prop, tier, used, clause, history, seconds):
+    """(in a fresh child) minimises the tape, then the explicit scenario; with a history, minimises the history"""
+    deadline = _clock() + seconds
+    nruns = 0
+    if history:
+        # every probe needs fresh interpreter state: one forked child per probe
+        hist = list(history)
+        i = len(hist) - 1
+        while i >= 0 and _clock() < deadline:
+            cand = hist[:i] + hist[i + 1:]
+            st, r = _in_child(_repro, (prop, tier, used, cand), 120)
+            nruns += 1
+            if st == "ok" and r["fv"] is not None and r["fv"][1] == clause:
+                hist = cand
+            i -= 1
+        return used, hist, None, nruns
+
+    def still(c):
+        try:
+            r, _ = replay_tape(prop, tier, c)
+        except Exception:
+            return False
+        f = r.first(prop)
+        return f is not None and f[1] == clause
+    small, nruns = shrink(used, still, max_runs=800, deadline=deadline, clock=_clock)
+    res, small_used = replay_tape(prop, tier, small)
+    fv = res.first(prop)
+    if fv is None or fv[1] != clause:
+        return used, [], None, nruns
+    scenario_json = None
+    eng_ = _engine_for(prop)
+    if res.scenario is not None and hasattr(eng_, "simplifications"):
+        scn_small, n2 = shrink_scenario(prop, tier, res.scenario, clause, max(deadline, _clock() + 20))
+        r2 = eng_.run_scenario(scn_small, prop, tier)
+        f2 = r2.first(prop)
+        if f2 is not None and f2[1] == clause:
+            scenario_json = scn_small
+            nruns += n2
+    return small_used, [], scenario_json, nruns
 
 
 def shrink_scenario(prop, tier, scn, clause, deadline, max_runs=400):
@@ -234,45 +362,62 @@ def check(prop, tier, base_seed, runs, budget_s, workers, meta, batch=None, out=
     for v in sorted(agg["viols"]):
         classes.setdefault((v[2], v[3]), v)
     shrink_deadline = _clock() + max(30.0, budget_s)
+    child_limit = 240
     for (clause, shape), v in sorted(classes.items(), key=lambda kv: kv[1][0])[:6]:
-        idx, seed, _, _, msg, used, dig = v
-        # reproduce in this process from the tape
-        try:
-            res, used2 = replay_tape(prop, tier, used)
-        except Exception:
-            harness_error = "replay raised:\n" + traceback.format_exc()
+        idx, seed, _, _, msg, used, dig, prefix = v
+        note = None
+        history = []
+        # reproduce from the tape, alone, in a fresh process
+        st, r1 = _in_child(_repro, (prop, tier, used, []), child_limit)
+        if st != "ok":
+            harness_error = "replay raised:\n" + str(r1)
             continue
-        fv = res.first(prop)
-        if fv is None or fv[1] != clause or res.digest != dig:
-            harness_error = (f"violation {prop}/{clause} of seed {seed} did not reproduce from its tape "
-                             f"(got {fv and fv[1]}, digest {res.digest} vs {dig}) - determinism leak in the harness")
-            continue
-
-        def still(c, clause=clause):
-            try:
-                r, _ = replay_tape(prop, tier, c)
-            except Exception:
-                return False
-            f = r.first(prop)
-            return f is not None and f[1] == clause
+        if not (r1["fv"] is not None and r1["fv"][1] == clause and r1["digest"] == dig):
+            st, r1b = _in_child(_repro, (prop, tier, used, []), child_limit)
+            if st != "ok" or (r1b["fv"], r1b["digest"]) != (r1["fv"], r1["digest"]):
+                harness_error = (f"violation {prop}/{clause} of seed {seed} did not reproduce from its tape and two fresh "
+                                 f"processes disagree ({r1['fv'] and r1['fv'][1]} {r1['digest']} vs "
+                                 f"{st == 'ok' and r1b['fv'] and r1b['fv'][1]}) - determinism leak in the harness")
+                continue
+            if r1["fv"] is not None:
+                note = (f"first met as {clause} (digest {dig}) in a process that had executed {len(prefix)} other runs "
+                        f"before; alone in a fresh process the same tape violates {r1['fv'][1]}: the outcome depends on "
+                        f"state that survives from one run to the next inside the process")
+                clause = r1["fv"][1]
+            else:
+                st, rp = _in_child(_repro, (prop, tier, used, prefix), child_limit)
+                if st == "ok" and rp["fv"] is not None and rp["fv"][1] == clause:
+                    history = list(prefix)
+                    note = ("the violation needs the runs listed under history to have executed before in the same "
+                            "process: state survives from one run to the next")
+                else:
+                    harness_error = (f"violation {prop}/{clause} of seed {seed} did not reproduce from its tape "
+                                     f"(alone: {r1['fv'] and r1['fv'][1]}, digest {r1['digest']} vs {dig}; after the "
+                                     f"{len(prefix)} runs that preceded it in its process: "
+                                     f"{st == 'ok' and rp['fv'] and rp['fv'][1]}) - determinism leak in the harness")
+                    continue
         # a listed finding is reported as it was met: no need to spend the budget minimising it again
-        already_known = match_finding(findings, prop, clause, shape) is not None
-        small, nruns = (used2, 0) if already_known else shrink(used2, still, max_runs=800, deadline=shrink_deadline,
-                                                                clock=_clock)
-        res, small_used = replay_tape(prop, tier, small)
-        fv = res.first(prop)
-        if fv is None or fv[1] != clause:       # cannot happen; keep the original
-            res, small_used = replay_tape(prop, tier, used2)
-            fv = res.first(prop)
-        scenario_json = None
-        eng_ = _engine_for(prop)
-        if res.scenario is not None and hasattr(eng_, "simplifications") and not already_known:
-            scn_small, n2 = shrink_scenario(prop, tier, res.scenario, clause, max(shrink_deadline, _clock() + 20))
-            r2 = eng_.run_scenario(scn_small, prop, tier)
-            f2 = r2.first(prop)
-            if f2 is not None and f2[1] == clause:
-                res, fv, scenario_json = r2, f2, scn_small
-                nruns += n2
+        fshape = r1["fv"][2] if r1["fv"] is not None else shape
+        already_known = match_finding(findings, prop, clause, fshape) is not None
+        small, hist_small, scenario_json, nruns = used, history, None, 0
+        if not already_known:
+            left = max(30.0, shrink_deadline - _clock())
+            st, sj = _in_child(_shrink_job, (prop, tier, used, clause, history, left), left + 60)
+            if st == "ok":
+                small, hist_small, scenario_json, nruns = sj
+        st, fin = _in_child(_repro, (prop, tier, small, hist_small, scenario_json), child_limit)
+        if st != "ok" or fin["fv"] is None or fin["fv"][1] != clause:
+            scenario_json = None
+            st, fin = _in_child(_repro, (prop, tier, small, hist_small), child_limit)
+        if st != "ok" or fin["fv"] is None or fin["fv"][1] != clause:       # keep the original
+            small, hist_small = used, history
+            st, fin = _in_child(_repro, (prop, tier, used, history), child_limit)
+        if st != "ok" or fin["fv"] is None:
+            harness_error = f"violation {prop}/{clause} of seed {seed} was lost while minimising: {fin if st != 'ok' else ''}"
+            continue
+        fv = fin["fv"]
+        small_used = fin["used"]
+        res = _Fin(fin)
         known = match_finding(findings, prop, fv[1], fv[2])
         os.makedirs(REPLAY_DIR, exist_ok=True)
         path = os.path.join(REPLAY_DIR, f"{prop}-{fv[1]}-{seed}.json")
@@ -281,7 +426,7 @@ def check(prop, tier, base_seed, runs, budget_s, workers, meta, batch=None, out=
                            clause=fv[1], shape=fv[2], message=fv[3], digest=res.digest,
                            tape=small_used, original_tape_len=len(used), shrink_runs=nruns,
                            scenario_json=scenario_json,
-                           scenario=res.sample,
+                           scenario=res.sample, history=hist_small, note=note,
                            replay=f"./check {prop} --replay {path}"), f, indent=1, default=str)
         if known:
             known_hits[known.get("id", "?")] += 1
@@ -376,6 +521,12 @@ def replay_file(path, out=sys.stdout):
     with open(path) as f:
         doc = json.load(f)
     prop = doc["property"]
+    for sd in doc.get("history") or []:
+        # runs that have to precede it in the same process (state that survives from one run to the next)
+        try:
+            _engine_for(prop).run(Tape(seed=sd), prop, doc.get("tier", "quick"))
+        except (Exception, asyncio.CancelledError):
+            pass
     if doc.get("scenario_json") is not None:
         # explicit minimised scenario (the tape regenerates the un-minimised one)
         res = _engine_for(prop).run_scenario(doc["scenario_json"], prop, doc.get("tier", "quick"))
